@@ -1,6 +1,7 @@
 package props
 
 import (
+	"go/token"
 	"fmt"
 	"go/ast"
 	"go/constant"
@@ -132,9 +133,12 @@ func callsSelf(p *core.Program, fr *core.FuncRef, idx map[*types.Func]*core.Func
 		if !ok {
 			return true
 		}
-		if f == self || (root != nil && f == root) {
+		if f == self {
 			found = true
 			return false
+		}
+		if root != nil && f == root {
+			return true // a call back into the interpreted function stays an opaque call inside the inlined helper
 		}
 		if next := idx[f]; next != nil && !seen[f] && f.Pkg() == self.Pkg() && !f.Exported() {
 			seen[f] = true
@@ -318,4 +322,38 @@ func helperClosure(p *core.Program, fn *core.FuncRef) []*core.FuncRef {
 		})
 	}
 	return out
+}
+
+// loopCount recognises a counted loop and returns the expression it counts to: `for i := 0; i < N; i++`,
+// `for i := 1; i <= N; i++`, `for i := N; i > 0; i--`, `for i := N - 1; i >= 0; i--` (the usual ways of doing
+// something N times). ok is false for any other loop.
+func loopCount(fs *ast.ForStmt) (n string, ok bool) {
+	if fs.Init == nil || fs.Cond == nil || fs.Post == nil {
+		return "", false
+	}
+	as, ok1 := fs.Init.(*ast.AssignStmt)
+	be, ok2 := core.Unparen(fs.Cond).(*ast.BinaryExpr)
+	inc, ok3 := fs.Post.(*ast.IncDecStmt)
+	if !ok1 || !ok2 || !ok3 || len(as.Lhs) != 1 || len(as.Rhs) != 1 {
+		return "", false
+	}
+	v := core.ExprStr(as.Lhs[0])
+	if core.ExprStr(inc.X) != v {
+		return "", false
+	}
+	start := core.ExprStr(as.Rhs[0])
+	x, y := core.ExprStr(be.X), core.ExprStr(be.Y)
+	switch {
+	case inc.Tok == token.INC && (start == "0" || start == "int64(0)") && be.Op == token.LSS && x == v:
+		return y, true
+	case inc.Tok == token.INC && (start == "0" || start == "int64(0)") && be.Op == token.GTR && y == v:
+		return x, true
+	case inc.Tok == token.INC && start == "1" && be.Op == token.LEQ && x == v:
+		return y, true
+	case inc.Tok == token.DEC && be.Op == token.GTR && x == v && y == "0":
+		return start, true
+	case inc.Tok == token.DEC && be.Op == token.GEQ && x == v && y == "0" && strings.HasSuffix(start, " - 1"):
+		return strings.TrimSuffix(start, " - 1"), true
+	}
+	return "", false
 }
